@@ -215,6 +215,12 @@ namespace
 		parts.push_back(down(w));
 		parts.push_back(']');
 	      }
+	    else if (w == '^')
+	      {
+		// "[^]" would begin a negated bracket expression.
+		parts.push_back('\\');
+		parts.push_back('^');
+	      }
 	    else
 	      {
 		parts.push_back('[');
